@@ -327,6 +327,21 @@ func report(prop, tier string, seed int, specs []HarnessSpec, known []KnownFindi
 }
 
 func cmdSelftest(args []string) {
-	// the differential self-test is the harness set of pseudo property "SELF"
+	// the differential self-test is the harness set of pseudo property
+	// "SELF": first natively (gc-compiled), then under the engine
+	for _, sp := range loadIndex() {
+		if sp.Prop != "SELF" {
+			continue
+		}
+		v := &interp.Violation{Harness: sp.Harness, Kind: "selftest", Params: map[string]int{}}
+		path := writeReplay("SELF", sp, v, 0)
+		_, out := nativeReplay(path)
+		if !strings.Contains(out, "VF-REPLAY-PASS "+sp.Harness) {
+			fmt.Print(out)
+			fmt.Printf("SELFTEST FAILED: %s does not pass natively\n", sp.Harness)
+			os.Exit(3)
+		}
+		fmt.Printf("selftest: %s passes natively\n", sp.Harness)
+	}
 	cmdCheck(append([]string{"-prop", "SELF"}, args...))
 }
